@@ -45,47 +45,56 @@ Definition c_rbrace : char := 125.
 
 (** ** One token of [any_part_pattern] *)
 
+(** What the fraction alternative captures, and the rest of the text. *)
+Definition btok_frac_rest : Type := (option (str * str) * str * str * str * str * str)%type.
+
 Inductive btok :=
-| TFrac (i : option str) (n d : str)     (* integer?, numerator, denominator digit strings *)
+| TFrac (i : option (str * str)) (n b1 b2 d : str)
+    (* (integer digits, blanks after it)?, numerator, blanks, "/", blanks, denominator *)
 | TDec (ip : str) (fp : option str)      (* digits, and the digits after the "." when there is one *)
 | TEsc (c : char)                        (* backslash + c *)
 | TChr (c : char).
 
 Definition has_nonzero (d : str) : bool := existsb (fun c => negb (c =? c_0)) d.
 
-(** [[ \t]STAR/[ \t]STAR(0STAR[1-9][0-9]STAR)] : (denominator, rest). *)
-Definition match_slash_den (x : str) : option (str * str) :=
-  match skip_blanks x with
+(** Longest prefix of blanks (space, tab) and the rest. *)
+Fixpoint span_blanks (x : str) : str * str :=
+  match x with
+  | [] => ([], [])
+  | c :: t => if is_blank c then let (a, b) := span_blanks t in (c :: a, b) else ([], x)
+  end.
+
+(** [[ \t]STAR/[ \t]STAR(0STAR[1-9][0-9]STAR)] : (blanks, blanks, denominator, rest). *)
+Definition match_slash_den (x : str) : option (str * str * str * str) :=
+  let (b1, r0) := span_blanks x in
+  match r0 with
   | c :: r =>
       if c =? c_slash then
-        let (d, r') := span_digits (skip_blanks r) in
-        if has_nonzero d then Some (d, r') else None
+        let (b2, r1) := span_blanks r in
+        let (d, r') := span_digits r1 in
+        if has_nonzero d then Some (b1, b2, d, r') else None
       else None
   | [] => None
   end.
 
-(** The fraction alternative at the head of [x]: (integer?, numerator, denominator, rest). *)
-Definition match_fraction (x : str) : option (option str * str * str * str) :=
+(** The fraction alternative at the head of [x]. *)
+Definition match_fraction (x : str) : option btok_frac_rest :=
   let (a, r1) := span_digits x in
   if is_nil a then None else
   let with_int :=
-    match r1 with
-    | b :: _ =>
-        if is_blank b then
-          let (nn, r2) := span_digits (skip_blanks r1) in
-          if is_nil nn then None else
-          match match_slash_den r2 with
-          | Some (d, r3) => Some (Some a, nn, d, r3)
-          | None => None
-          end
-        else None
-    | [] => None
+    let (b0, r1') := span_blanks r1 in
+    if is_nil b0 then None else
+    let (nn, r2) := span_digits r1' in
+    if is_nil nn then None else
+    match match_slash_den r2 with
+    | Some (b1, b2, d, r3) => Some (Some (a, b0), nn, b1, b2, d, r3)
+    | None => None
     end in
   match with_int with
   | Some m => Some m
   | None =>
       match match_slash_den r1 with
-      | Some (d, r3) => Some (None, a, d, r3)
+      | Some (b1, b2, d, r3) => Some (None, a, b1, b2, d, r3)
       | None => None
       end
   end.
@@ -105,7 +114,7 @@ Definition match_decimal (x : str) : option (str * option str * str) :=
     the rest.  [None] token = no alternative matches here; the scan moves on one character. *)
 Definition next_token (x : str) : option btok * str :=
   match match_fraction x with
-  | Some (i, n, d, r) => (Some (TFrac i n d), r)
+  | Some (i, n, b1, b2, d, r) => (Some (TFrac i n b1 b2 d), r)
   | None =>
       match match_decimal x with
       | Some (a, f, r) => (Some (TDec a f), r)
@@ -153,11 +162,11 @@ Definition float_of_dec (m : N) (k : nat) : option num := b64 (Z.of_N m) (pow10p
 
 Definition tok_value (t : btok) : bres part :=
   match t with
-  | TFrac i n d =>
-      if negb (int_ok n && int_ok d && match i with Some a => int_ok a | None => true end)
+  | TFrac i n _ _ d =>
+      if negb (int_ok n && int_ok d && match i with Some (a, _) => int_ok a | None => true end)
       then BValueError
       else
-        let iv := match i with Some a => val_N a | None => 0 end in
+        let iv := match i with Some (a, _) => val_N a | None => 0 end in
         match val_N d with
         | Npos dp => BOk (PNum (mk_frac (Z.of_N iv * Zpos dp + Z.of_N (val_N n))%Z dp))
         | N0 => BValueError      (* unreachable: the denominator has a non-zero digit *)
